@@ -417,10 +417,10 @@ CLI_CORPUS_KEYS = {
     "C04": ("expectfull",),
     "C05": ("leakcheck", "retmax", "sigint"),
     "C08": ("maxfail", "igndrop", "failevery", "tdfail", "setupfail", "sigint", "bodyms=30", "profile1"),
-    "C09": ("exact=1", "timing=1"),
+    "C09": ("exact=1", "timing=1", "rate=%s" % hx("1/100ns")),
     "C12": ("exact=1", "meaningmax"),
     "C15": ("mode=file",),
-    "C14": ("fpath=",),
+    "C14": ("fpath=", "rate=%s" % hx("1/100ns"), "rate=%s" % hx("5/1us")),
     "C19": ("tdfail", "setupfail", "maxfailrate=19", "igndrop=1"),
     "C01": ("pushgw",),
     "C16": ("pushgw", "static"),
@@ -522,6 +522,8 @@ def cli_corpus():
         c(mode="users", dur=d200, conc=2, bodyms=1, maxit=6, failevery=3, expectlimit=1, twice=1, profile1="cpu"),
         c(mode="users", dur=d200, conc=2, bodyms=1, maxit=6, expectlimit=1, twice=1, profile1="mem"),
         c(mode="users", dur=hx("600ms"), conc=10, maxit=3, bodyms=5, expectlimit=1, retmax=3000),                  # more users than iterations left: the run still ends
+        c(mode="constant", dur=hx("150ms"), conc=2, rate=hx("1/100ns"), dist=none, bodyms=1),     # C14k: a tick far shorter than it takes to start the pool is still a positive tick
+        c(mode="constant", dur=hx("150ms"), conc=2, rate=hx("5/1us"), dist=none, bodyms=1),
         c(mode="constant", dur=d200, conc=2, raw=hx("--nope")),
         c(mode="constant", dur=d200, conc=2, raw=hx("extra-positional")),
     ]
